@@ -87,10 +87,12 @@ func C13(o *world.Obs) *Result {
 				unspecWhy = "invalid-sie-argument"
 				break
 			}
-			// the window may be evaluated at any instant of the exchange (a validation that hangs
-			// until the caller's deadline takes time): "inside" must hold at its end, "outside"
-			// already at its start
-			ageLo, _, exact := v.AgeBounds(ex.StartNs)
+			// the window is judged when the stored response is handed out, i.e. at the end of
+			// the exchange (a validation that hangs until the caller's deadline takes time, and
+			// the Age the response carries is the age at that instant): a response that was
+			// inside its window when the request arrived but has left it by the time the
+			// validation finally fails is outside
+			ageLo, _, exact := v.AgeBounds(ex.EndNs)
 			_, ageHi, _ := v.AgeBounds(ex.EndNs)
 			lifeLo, lifeHi, _, _ := v.Lifetime()
 			if !model.HeuristicAllowed(v.Status, cc, true) {
